@@ -3,6 +3,13 @@ package main
 // Per-property driver configuration. rule/assumptions go verbatim into the
 // evidence file; the counts next to them are measured by the test processes.
 var props = map[string]propCfg{
+	"C08": {
+		rule: "function bodies from a control-flow grammar (nesting <= 5): try/catch/finally in its three shapes with and without (destructuring) catch parameters, for-of over instrumented iterators (plain, without return(), next() throwing, next() returning a non-object, return() throwing or returning a non-object) and over generators, the other four loop kinds, labelled loops and blocks, switch, with, array destructuring/spread/Array.from over the same iterators; break/continue (labelled and not), return and throw are placed at random statement positions incl. inside catch and finally; every try body, catch, finally, loop body and iterator method logs an event. Oracle 1 (no interpreter): per run the try/finally events obey LIFO bracket discipline with every pending finally run exactly once, each iterator receives return() at most once, never after next() reported done or threw, exactly once when it was left before exhaustion, each started generator runs its finally exactly once. Oracle 2: the whole trace, completion value and exception equal refjs. Non-trivial = the trace contains a finally and an iterator close, or two finally blocks; distinct = FNV-64 of the printed source",
+		assumptions: []string{
+			"refjs is the trusted definitional interpreter for oracle 2; oracle 1 depends only on the event log",
+			"interrupt/stack-overflow unwinding (no finally, no return()) is exercised by C15",
+		},
+	},
 	"C12": {
 		rule: "fmt: one float64 bit pattern (structured: uniform bits, every exponent x boundary mantissas, powers of two and ten +-2 ulp, subnormals of every bit length, 2^53 neighbourhood, short decimals, exact dyadic ties odd/2^(f+1), nearest doubles to (k+1/2)*10^-f, 99..9 carry patterns, doubles adjacent to a midpoint that is a short decimal such as 1e23) x 4-5 requests out of String/concat/template/property key/JSON.stringify, round trips through every printer, toFixed/toExponential/toPrecision with digits 0..100 (and out-of-range / non-integer spellings), toString(radix 2..36 and invalid); s2n: one numeric text (decimal strings up to 800 digits on / one unit above / one unit below the midpoint of two adjacent doubles, short decimals D*10^e that are exact ties, random long and short decimals, renderings of doubles, 0x/0o/0b and legacy octal up to 300 digits, digits in radix 2..36) presented to Number(s), +s, s*1, parseFloat(s+junk), parseInt(s+junk, radix), the source literal and JSON.parse; a case is non-trivial when x is not an integer below 2^53 with <=15 digits or a request discards a non-zero tail (fmt), or the text has more than 17 significant decimal digits / more than 53 significant bits (s2n); distinct = FNV-64 of bits+requests or of the text+junk+radix",
 		assumptions: []string{
